@@ -84,6 +84,27 @@ def gen_cases(tier):
                 pre = [["discover", 0, 3]] if disc else []
                 tail = [["set_keys", 0], ["get", 0, "sys"], ["reply", 0, "octets", 9]] if not disc else []
                 yield {"class": "same-octets", "cfgs": [cfg.describe()], "history": pre + length_sweep(2, 12) + tail}
+    # DES: authentic replies whose ciphertext is not a whole number of blocks (after a valid one has been decrypted)
+    for auth in (1, 2):
+        cfg = Cfg("v3", auth=auth, priv=1)
+        h = [["get", 0, "sys"], ["reply", 0, "octets", 61]]
+        for k in range(1, 8):
+            h += [["get", 0, "sys"], ["reply", 0, "partial", k], ["reply", 0, "octets", 20 + k]]
+        yield {"class": "partial-block", "cfgs": [cfg.describe()], "history": h}
+    # large encrypted replies (up to the receive limit) must be decrypted and delivered intact
+    for auth, priv in combos:
+        cfg = Cfg("v3", auth=auth, priv=priv)
+        h = []
+        for n in (1500, 1900, 1990, 2040, 2100, 3000, 3900):
+            h += [["get", 0, "sys"], ["reply", 0, "octets", n]]
+        yield {"class": "big-replies", "cfgs": [cfg.describe()], "history": h}
+    # real time passing between an accepted reply and the next request (header time and IV must stay in step)
+    for auth, priv in combos:
+        for disc in (False, True):
+            cfg = Cfg("v3", auth=auth, priv=priv, discover=disc)
+            pre = [["discover", 0, 0]] if disc else []
+            h = pre + [["get", 0, "sys"], ["reply", 0, "ok", 1], ["sleep", 0, 1.15], ["get", 0, "sys"], ["reply", 0, "octets", 20], ["sleep", 0, 1.15], ["getbulk", 0, "sys", 3], ["get_many", 0, "pair"]]
+            yield {"class": "slow", "cfgs": [cfg.describe()], "history": h}
     # boots / time corner values drive the AES IV and the DES salt prefix
     for auth, priv in combos:
         cfg = Cfg("v3", auth=auth, priv=priv, engine_id=bytes(range(1, 18)))
@@ -112,11 +133,13 @@ def run(tier):
     rec.rule = (
         "all histories to depth %d over {get, get_many(40), getnext(128 arcs), getbulk, encrypted reply, garbage, plaintext Report, time-out} "
         "x {DES,AES} x {MD5,SHA1}; scoped-PDU length sweep over all residues mod 8/16 x 9 (auth,priv) key-type pairs x {engine id given, "
-        "discovered+set_keys}; boots/time corners; two interleaved privacy sessions. evaluations = msgData blobs decrypted and compared."
+        "discovered+set_keys}; boots/time corners; two interleaved privacy sessions; histories with > 1 s of real time between an accepted reply and the next request. evaluations = msgData blobs decrypted and compared."
         % (6 if tier == "thorough" else 4)
     )
     rec.assume(
         "DES/AES block primitives: pure-Python FIPS implementations cross-checked against OpenSSL libcrypto at start-up; chaining, IV and salt rules written from RFC 3414 s.8 / RFC 3826",
     )
-    common.run_cases(rec, work, list(gen_cases(tier)), chunk=60)
+    cases = list(gen_cases(tier))
+    common.run_cases(rec, work, [c for c in cases if c.get("class") == "slow"], chunk=1)
+    common.run_cases(rec, work, [c for c in cases if c.get("class") != "slow"], chunk=60)
     return histcheck.finish(rec)
